@@ -14,7 +14,7 @@ import os
 from sim import core, canon, ops, simio
 from checks.common import PoolCheck, delivery_facts, merge, short, jcopy, shrink_plan
 
-ENTRY_POINTS = ('is_valid', 'iter_errors', 'validate', 'decode', 'decode_lax', 'decode_skip', 'pkg_to_dict_skip', 'cli',
+ENTRY_POINTS = ('is_valid', 'iter_errors', 'validate', 'decode', 'decode_lax', 'decode_skip', 'pkg_to_dict_skip', 'cli', 'cli_pair',
                 'pkg_is_valid', 'pkg_iter_errors', 'pkg_validate', 'pkg_to_dict')
 CHANNELS = ('bytes', 'text', 'bytesio', 'stringio', 'raw', 'raw', 'buffered', 'textio', 'duck', 'openfile', 'openfile_text',
             'path', 'pathobj', 'fileurl', 'http', 'etree', 'element', 'resource', 'resource_stream',
@@ -69,7 +69,7 @@ class C04(PoolCheck):
         return {'entry': key, 'doc': di, 'src': src, 'eps': eps, 'reuse': reuse}
 
     # ------------------------------------------------------------------
-    def call_cli(self, entry, data, env):
+    def call_cli(self, entry, data, env, second=None):
         """The validate command, in process: exit status as the OS reports it (low 8 bits)."""
         import io
         import sys
@@ -81,6 +81,8 @@ class C04(PoolCheck):
         if entry.version == '1.1':
             argv.append('--version=1.1')
         argv.append(path)
+        if second is not None:
+            argv.append(env.path_for(second))       # one command run over two documents
         saved = sys.argv
         sys.argv = argv
         try:
@@ -159,6 +161,14 @@ class C04(PoolCheck):
                         cores.append(core_)
                 if ep == 'cli':
                     got.append(jcopy(self.call_cli(e, data, env)))
+                    continue
+                if ep == 'cli_pair':
+                    partner = (case['doc'] + 1) % len(e.docs)
+                    r2 = self.ref(case['entry'], partner, {'api': 'iter_errors'})
+                    res = jcopy(self.call_cli(e, data, env, second=e.docs[partner].data))
+                    if res['k'] == 'ok':
+                        res['v'] = ['exit2', res['v'][1], len(r2['v']) if r2['k'] == 'ok' else None]
+                    got.append(res)
                     continue
                 got.append(jcopy(self.call(e.schema, source, ep)))
         finally:
@@ -276,6 +286,14 @@ class C04(PoolCheck):
         if ref_dec['k'] != 'ok':
             return None
         D, DE = ref_dec['v']
+        if name == 'cli_pair':
+            # one run of the command over two documents: status 0 exactly when both are valid
+            if E is None or getattr(self, '_multi_source', False) or g['k'] != 'ok' or g['v'][2] is None:
+                return None
+            if (g['v'][1] == 0) != (not E and g['v'][2] == 0):
+                base.update(clause='cli-exit-status', status=g['v'][1], errors=min(len(E), 300), second=min(g['v'][2], 300))
+                return base
+            return None
         if name == 'cli':
             # the validate command exits with status 0 exactly when the document is valid
             if E is None or getattr(self, '_multi_source', False):
